@@ -49,6 +49,55 @@ fn run(txs: &[Transaction], year: Option<i32>, cfg: &cgt_core::Config) -> Res {
     guarded(move || calculate(&t2, year, None, &c2).map_err(|e| e.to_string()))
 }
 
+/// cgt-wasm's `calculate_tax` on the DSL text of the ledger, all years and one year at a time.  (On a native target the
+/// error path of the binding cannot build its JsValue and panics; only the success path is observable here.)
+fn wasm_checks(txs: &[Transaction], rep: &TaxReport, years: &[u16], cnt: &mut Counters, push: &mut dyn FnMut(&str, &str, String)) {
+    use std::str::FromStr;
+    let Ok(emb) = cgt_core::Config::embedded() else { return };
+    if years.iter().any(|y| emb.get_exemption(*y).is_err()) { return; }
+    let dsl = to_dsl(txs);
+    let call = |y: Option<i32>| -> Option<serde_json::Value> {
+        let d = dsl.clone();
+        guarded(move || cgt_wasm::calculate_tax(&d, y).map_err(|_| ())).ok().and_then(|r| r.ok()).and_then(|s| serde_json::from_str(&s).ok())
+    };
+    let dec = |v: &serde_json::Value| v.as_str().and_then(|s| Decimal::from_str(s).ok());
+    cnt.inc("wasm_reports");
+    cnt.inc("executions");
+    let Some(all) = call(None) else { push("C17", "wasm_failed", "cgt-wasm calculate_tax fails on a ledger the library reports on".into()); return };
+    let wy = all["tax_years"].as_array().cloned().unwrap_or_default();
+    if wy.len() != rep.tax_years.len() { push("C17", "wasm_years", format!("cgt-wasm lists {} tax years, the library {}", wy.len(), rep.tax_years.len())); return; }
+    for (w, y) in wy.iter().zip(&rep.tax_years) {
+        let exemption = emb.get_exemption(y.period.start_year()).unwrap_or_default();
+        let gross: Decimal = y.disposals.iter().map(|d| d.gross_proceeds).sum();
+        let cost: Decimal = y.disposals.iter().flat_map(|d| d.matches.iter()).map(|m| m.allowable_cost).sum();
+        let taxable = (y.net_gain - exemption).max(Decimal::ZERO);
+        let mut bad = Vec::new();
+        for (name, want) in [("total_gain", y.total_gain), ("total_loss", y.total_loss), ("net_gain", y.net_gain), ("total_proceeds", gross), ("total_cost", cost), ("exemption", exemption), ("taxable_gain", taxable)] {
+            if dec(&w[name]) != Some(want) { bad.push(format!("{name} {} expected {want}", w[name])); }
+        }
+        if w["year"].as_u64() != Some(u64::from(y.period.start_year())) { bad.push(format!("year {} expected {}", w["year"], y.period.start_year())); }
+        let wd = serde_json::to_value(&y.disposals).unwrap_or(json!(null));
+        if cgtv::canon_numbers(&w["disposals"]) != cgtv::canon_numbers(&wd) { bad.push("disposals differ from the library's".into()); }
+        if !bad.is_empty() {
+            push("C17", "wasm_figures", format!("cgt-wasm, tax year {}: {}", y.period.start_year(), bad.join("; ")));
+            push("C04", "wasm_figures", format!("cgt-wasm, tax year {}: {}", y.period.start_year(), bad.join("; ")));
+        }
+        // one year at a time: exactly that year's entry
+        cnt.inc("executions");
+        match call(Some(i32::from(y.period.start_year()))) {
+            None => push("C07", "wasm_slice", format!("cgt-wasm calculate_tax(year = {}) fails", y.period.start_year())),
+            Some(one) => {
+                let oy = one["tax_years"].as_array().cloned().unwrap_or_default();
+                if oy.len() != 1 || oy[0] != *w || one["holdings"] != all["holdings"] {
+                    push("C07", "wasm_slice", format!("cgt-wasm calculate_tax(year = {}) is not the all-years entry: {} vs {}", y.period.start_year(), serde_json::to_string(&oy).unwrap_or_default().chars().take(300).collect::<String>(), w.to_string().chars().take(300).collect::<String>()));
+                }
+            }
+        }
+    }
+    let wh = serde_json::to_value(&rep.holdings).unwrap_or(json!(null));
+    if cgtv::canon_numbers(&all["holdings"]) != cgtv::canon_numbers(&wh) { push("C17", "wasm_figures", "cgt-wasm holdings differ from the library's".into()); }
+}
+
 fn main() {
     let v: Vec<String> = std::env::args().collect();
     let mut input = String::new();
@@ -194,6 +243,11 @@ fn main() {
                     if !bad.is_empty() {
                         push("C04", "year_totals", format!("tax year {}: {}", ey.year, bad.join("; ")));
                     }
+                }
+                // ---- the browser front-end (cgt-wasm, compiled natively): it derives total proceeds, total cost and the
+                // taxable gain on its own and uses the embedded exemption table; every figure must be the library's
+                if case_no % 3 == 0 {
+                    wasm_checks(&txs, &rep, &want, &mut cnt, &mut push);
                 }
                 // ---- C07: a one-year report is the slice of the all-years report
                 let mut ys: Vec<u16> = want.clone();
